@@ -183,3 +183,102 @@ func bt1PutType(p *core.Prog, rep *core.Report) {
 	}
 	rep.Check(len(bad) == 0, "BT1", "(*Batch).Put|record-type", "the staged record is typed Normal at every success return", p.Pos(put.Pos()), strings.Join(bad, "; "), true)
 }
+
+// bt2FlushThenStage (C02/C04): a mid-batch flush in Batch.Put / Batch.Delete is followed by staging the current
+// record, so a batch that flushed anything never reaches Commit with an empty staged set (Commit's empty fast path
+// returns without writing the seal). States: N nothing, F flushed and nothing staged since, S staged.
+func bt2FlushThenStage(p *core.Prog, rep *core.Report) {
+	R := p.R
+	rep.Rule("BT2", "flush-then-stage: on every success path of Batch.Put / Batch.Delete, a mid-batch flush (tagged records written without their seal) is followed by staging a record before the method returns - otherwise Commit's empty-batch fast path acknowledges the batch without ever sealing it and recovery drops it")
+	wr := p.Reaches("rw.write", func(site ssa.CallInstruction) bool { return isWritePrimitive(p, site.Common()) })
+	n := 0
+	for _, name := range []string{"Put", "Delete"} {
+		fn := p.MustMethod(R.Batch, name)
+		flushes := 0
+		eng := core.NewEngine(p, core.Hooks{
+			Name: "BT2",
+			Follow: func(f *ssa.Function) bool {
+				n := core.RecvNamed(f)
+				return p.InLib(f) && (n == R.Batch)
+			},
+			Step: func(x *core.Exec, in ssa.Instruction, a core.AState) ([]core.StepOut, bool) {
+				if ci, ok := in.(ssa.CallInstruction); ok && isSharedActiveWrite(p, wr, ci.Common()) {
+					flushes++
+					callee := ci.Common().StaticCallee()
+					idx := core.ErrResultIndex(callee.Signature)
+					if callee.Signature.Results().Len() == 1 {
+						idx = -1
+					}
+					return []core.StepOut{{A: "F", Fact: true, Idx: idx, Truth: 0}, {A: a, Fact: true, Idx: idx, Truth: 1}}, true
+				}
+				if f, _, val := core.StoreField(in); f == R.BatchStaged {
+					if c, ok := val.(*ssa.Call); ok {
+						if bi, ok := c.Call.Value.(*ssa.Builtin); ok && bi.Name() == "append" {
+							return []core.StepOut{{A: "S"}}, true
+						}
+					}
+				}
+				return nil, false
+			},
+		})
+		var bad []string
+		for _, e := range eng.Run(fn, "N", "") {
+			if e.Cls != core.ClsFailure && e.A == "F" {
+				bad = append(bad, "success return at "+p.InstrPos(e.Ret)+" after a mid-batch flush with nothing staged afterwards")
+			}
+		}
+		if flushes == 0 {
+			continue
+		}
+		n++
+		rep.Check(len(bad) == 0, "BT2", "flush-then-stage:"+core.FuncKey(fn), "a mid-batch flush is followed by staging the current record", p.Pos(fn.Pos()), strings.Join(sortedStr(bad), "; "), true)
+	}
+	if n < 2 {
+		core.Failf("vacuity guard: BT2 expected mid-batch flushes in Batch.Put and Batch.Delete, found %d", n)
+	}
+}
+
+// lk11PrivateReadBuffers (C09): positional reads run concurrently on one DataFile (rotated files are read without
+// any lock, the active file under the shared read lock), so the read path must not use per-file mutable state.
+func lk11PrivateReadBuffers(p *core.Prog, rep *core.Report) {
+	R := p.R
+	rep.Rule("LK11", "lock-free read paths are private: in the DataFile methods reachable from the positional read API (which runs concurrently on one file object) the buffer handed to ReadWriter.Read is rooted in a fresh / pooled allocation, never in a field of the DataFile, and no field of the DataFile is stored")
+	entry := p.MustMethod(R.DataFile, "ReadRecordValue")
+	scope := p.ReachableFrom([]*ssa.Function{entry}, func(f *ssa.Function) bool { return core.RecvNamed(f) == R.DataFile })
+	var bad []string
+	reads := 0
+	for fn := range scope {
+		for _, b := range fn.Blocks {
+			for _, in := range b.Instrs {
+				if f, base, _ := core.StoreField(in); f != nil && fieldOwner(p, f) == R.DataFile && !freshInFn(base, fn) {
+					bad = append(bad, fmt.Sprintf("%s stores DataFile.%s at %s on a read path", core.FuncKey(fn), f.Name(), p.InstrPos(in)))
+				}
+				ci, ok := in.(ssa.CallInstruction)
+				if !ok || !isReadPrimitive(p, ci.Common()) {
+					continue
+				}
+				reads++
+				buf := ci.Common().Args[0]
+				if !ci.Common().IsInvoke() && len(ci.Common().Args) > 1 {
+					buf = ci.Common().Args[1]
+				}
+				for {
+					sl, ok := buf.(*ssa.Slice)
+					if !ok {
+						break
+					}
+					buf = sl.X
+				}
+				for _, o := range core.Origins(buf) {
+					if f, _ := core.LoadedField(o); f != nil && fieldOwner(p, f) == R.DataFile {
+						bad = append(bad, fmt.Sprintf("%s reads into the per-file buffer DataFile.%s at %s: concurrent readers of one file overwrite each other's block (wrong bytes, CRC errors, panics)", core.FuncKey(fn), f.Name(), p.InstrPos(in)))
+					}
+				}
+			}
+		}
+	}
+	if reads == 0 {
+		core.Failf("vacuity guard: LK11 found no ReadWriter.Read below ReadRecordValue")
+	}
+	rep.Check(len(bad) == 0, "LK11", "read-path-private", fmt.Sprintf("the %d read call(s) below the positional read API use private buffers and store no per-file state", reads), p.Pos(entry.Pos()), strings.Join(sortedStr(bad), "; "), true)
+}
